@@ -536,6 +536,7 @@ CORE_CFGS = {
     "srcb": (["A"], {"VP_CAP": "2", "VP_CTXPERSIST": "1", "VP_NKEYS": "2"}),
     "fdev": (["A", "B"], {"VP_CAP": "2", "VP_CTXPERSIST": "1", "VP_SETUP": "loop2", "VP_NKEYS": "1"}),
     "tb": (["A", "B"], {"VP_CAP": "2", "VP_CTXPERSIST": "1", "VP_SETUP": "loop2"}),
+    "tbtmr": (["A", "B"], {"VP_CAP": "2", "VP_CTXPERSIST": "1", "VP_SETUP": "loop2"}),
     "btmo": (["A", "B"], {"VP_CAP": "2", "VP_CTXPERSIST": "1", "VP_SETUP": "loop2", "VP_MAXPAY": "2"}),
     "tick": (["A", "B"], {"VP_CAP": "2", "VP_CTXPERSIST": "1"}),
     "mem": (["A", "B"], {"VP_CAP": "2", "VP_CTXPERSIST": "1", "VP_SETUP": "loop2", "VP_MAXPAY": "2"}),
@@ -648,7 +649,7 @@ def c20(prop, tier, seed):
 
 @check("C18")
 def c18(prop, tier, seed):
-    return core_check(prop, tier, seed, ["tb"], ["tb"],
+    return core_check(prop, tier, seed, ["tb", "tbtmr"], ["tb", "tbtmr"],
                       "Focus: token bucket: every kind of rate-limited call with 0, 1, 2 tokens (EAGAIN and no effect without a token), refill ticks capped at the burst, rate 0 and stop remove the limit; token count compared after every step.", Dq=6, Dt=8)
 
 
